@@ -37,6 +37,19 @@ def generate(tier, rng):
         if j % 2:
             e.extra['no_noise'] = True
         enums.append(e)
+    # each string derive ALONE (and in pairs), with every enum-level flag the others consume: no derive may lean on an item
+    # that a sibling derive generates (`into_str` exists only with IntoStaticStr + const_into_str)
+    solo_sets = [['Display'], ['AsRefStr'], ['IntoStaticStr'], ['VariantNames'], ['AsRefStr', 'VariantNames'], ['Display', 'IntoStaticStr'], ['AsRefStr', 'Display']]
+    for j, ds in enumerate(solo_sets):
+        for cis in (True, False):
+            e = ESpec(id='c03solo%d%d' % (j, cis), name='EnC03solo%d%d' % (j, cis), style=[None, 'snake_case', 'UPPERCASE'][j % 3], prefix=[None, 'p-'][j % 2],
+                      derives=list(ds), feats=['names'] + (['vnames'] if 'VariantNames' in ds else []))
+            e.cis = cis
+            e.variants = [VSpec(ident='PlainOne'), VSpec(ident='WithTs', ts='shown', kind='tuple', ftypes=['u8']), VSpec(ident='WithSer', ser=['s', 'longer']),
+                          VSpec(ident='Named', kind='named', ftypes=['i32'], fnames=['alpha'], fdw=[None]), VSpec(ident='Off', dis=True)]
+            e.extra['shape'] = 'solo derives %s cis=%s' % ('+'.join(ds), cis)
+            e.extra['no_twin'] = True
+            enums.append(e)
     # the empty string is a name like any other
     for j, pfx in enumerate((None, 'p:')):
         e = ESpec(id='c03empty%d' % j, name='EnC03empty%d' % j, prefix=pfx, derives=list(derives), feats=['names', 'vnames'])
@@ -54,6 +67,14 @@ def generate(tier, rng):
     for e in enums:
         c.add(e)
         # twin carrying the deprecated derives (ToString conflicts with Display's blanket impl)
+        if e.extra.get('no_twin'):
+            keys = ','.join(rustgen.name_keys(e))
+            for v in e.variants:
+                if keys and not (v.dis or v.default or v.tr):
+                    c.op(e.id, 'names %s 1 x %s' % (hx(v.ident), keys), 'solo/' + namecorpus.naming_class(v) + '/' + v.kind)
+            if 'VariantNames' in e.derives:
+                c.op(e.id, 'variants', 'VARIANTS')
+            continue
         t = copy.deepcopy(e)
         t.id = e.id + 't'
         t.name = e.name + 'T'
